@@ -377,6 +377,9 @@ mod macros;
 mod span;
 #[doc(hidden)]
 pub mod util;
+#[cfg(fastrace_verif)]
+#[doc(hidden)]
+pub mod verif;
 
 pub use fastrace_macro::trace;
 
